@@ -1,66 +1,64 @@
 (* Properties/C19b.v — C19, the part Model/Augment.v took as given: which
-   function declaration getFuncAST selects for a traceback line and which type
-   names extractArgumentsType computes from it (Model/Source.v), and the
-   composition with augment_call.  Statements only.
+   function declaration getFuncAST selects for a traceback line and frame name,
+   and which type names extractArgumentsType computes from it
+   (Model/Source.v), and the composition with augment_call.  Statements only.
 
-   Reading guide ("inside a function" as the code defines it).  Let off be
-   lineToByteOffset[l], the byte offset of the first byte of line l, and let
-   positions be token.Pos values (byte offset + 1).  On a file as go/parser
-   produces it (wf_file) getFuncAST returns
+   Reading guide.  Let off be lineToByteOffset[l], the byte offset of the
+   first byte of line l, and let positions be token.Pos values (offset + 1).
+   The walk of getFuncAST (get_func_ast_at, the RAW selection) returns, on a
+   file as go/parser produces it (wf_file),
        the LAST top-level FuncDecl whose func keyword has Pos < off,
-       provided some node of the file has Pos >= off;  nothing otherwise.
-   (C19_select_spec.)  So a line is attributed to declaration k from the line
-   AFTER the one holding its func keyword up to and including the line on
-   which the next declaration starts (C19_select_enclosing), the line of the
-   func keyword itself belongs to the previous FuncDecl
-   (C19_func_keyword_line_selects_previous, C19_ex_one_line_func_refuted),
-   everything up to the first declaration following a function -- var / type
-   declarations with function literals included -- belongs to that function
-   (C19_ex_toplevel_funclit_refuted), function literals never count
-   (FuncLit is not FuncDecl), and the lines after the last node of the last
-   declaration select nothing (C19_select_last). *)
+       provided some node of the file has Pos >= off;  nothing otherwise
+   (C19_select_spec): declaration k from the line AFTER the one holding its
+   func keyword up to and including the line on which the next declaration
+   starts, function literals never count, the closing lines of the last
+   declaration select nothing (C19_select_last).  Since commit 12f3b86 the raw
+   selection is kept only if matchFuncDecl says it declares the function the
+   FRAME names (C19_selected_matches_frame); so the frames the raw selection
+   attributes to a neighbour -- a function written on one line, the func
+   keyword line (top frame of a stack overflow), function literals, code of
+   later var declarations -- stay unaugmented instead of being rendered with
+   the neighbour's types (C19_func_keyword_line_unaugmented,
+   C19_one_line_func_unaugmented, C19_wrong_name_unaugmented), while a frame
+   inside its own declaration keeps its types (C19_select_enclosing,
+   C19_match_complete_func, C19_match_complete_method).  Since commit 4cb43b4 a receiver list that does not
+   have one field yields no types instead of a panic (C19_source_total is
+   unconditional). *)
 From PP Require Import Base.Bytes Base.BytesX Base.Num Base.GoResult Model.Types Model.UI Model.Augment Model.Source Spec.Abi.
 From PP Require Import Proofs.AugmentProofs Proofs.SourceProofs.
 From Coq Require Import String.
 
 (* ---- totality ---- *)
 
-(* extractArgumentsType panics exactly when the receiver list does not have
-   one field ("Expect only one receiver") *)
-Theorem C19_extract_panics_iff : forall d,
-  (exists m, extract_arguments_type d = Panic m) <-> exists l, fd_recv d = Some l /\ List.length l <> 1.
-Proof. exact SourceProofs.extract_panics_iff. Qed.
-Print Assumptions C19_extract_panics_iff.
-
-(* getFuncAST itself has no failing operation (the index l is in range after
-   the length test); with one receiver field per method -- fd_recv = None or
-   Some [x], what compilable sources have -- the whole analysis returns *)
-Theorem C19_source_total : forall offsets root l,
-  Forall (fun x => recv_wf (snd x) = true) (funcdecls root) ->
-  exists r, source_types offsets root l = Ok r.
+(* for every offset table, tree, line and frame name: no panic *)
+Theorem C19_source_total : forall offsets root l f, exists r, source_types offsets root l f = Ok r.
 Proof. exact SourceProofs.source_total. Qed.
 Print Assumptions C19_source_total.
 
-(* and a panic is always that one: a selected declaration of the file whose
-   receiver list is empty or has several fields *)
-Theorem C19_source_panic_only_bad_receiver : forall offsets root l m,
-  source_types offsets root l = Panic m ->
-  exists p d recv, In (p, d) (funcdecls root) /\ fd_recv d = Some recv /\ List.length recv <> 1.
-Proof. exact SourceProofs.source_panic_only_bad_receiver. Qed.
-Print Assumptions C19_source_panic_only_bad_receiver.
+(* a receiver list that does not have exactly one field (go/parser accepts
+   "func () m()" and "func (a A, b B) m()"): no types, not variadic *)
+Theorem C19_extract_bad_receiver : forall d, recv_wf d = false -> extract_arguments_type d = ([], false).
+Proof. exact SourceProofs.extract_bad_receiver. Qed.
+Print Assumptions C19_extract_bad_receiver.
+
+(* recv[2 : len(recv)-1] in matchFuncDecl is evaluated only within bounds *)
+Theorem C19_match_slice_in_range : forall recv,
+  has_prefix recv OPEN_STAR = true -> has_suffix recv CLOSE = true -> 2 <= List.length recv - 1.
+Proof. exact SourceProofs.peel_in_range. Qed.
+Print Assumptions C19_match_slice_in_range.
 
 (* ---- the line is beyond the file ---- *)
-Theorem C19_overline : forall offsets root l,
-  source_types offsets root l = Ok SrcErr <-> List.length offsets <= l.
+Theorem C19_overline : forall offsets root l f,
+  source_types offsets root l f = Ok SrcErr <-> List.length offsets <= l.
 Proof. exact SourceProofs.source_overline_iff. Qed.
 Print Assumptions C19_overline.
 
 (* len(lineToByteOffsets(src)) = 2 + number of line feeds: the error is raised
    from line (number of LF) + 2 on; nothing is selected, the frame stays as it was *)
-Theorem C19_overline_src : forall src root l,
-  source_types (line_offsets src) root l = Ok SrcErr <-> 2 + count_byte src LF <= l.
+Theorem C19_overline_src : forall src root l f,
+  source_types (line_offsets src) root l f = Ok SrcErr <-> 2 + count_byte src LF <= l.
 Proof.
-  intros src root l. rewrite SourceProofs.source_overline_iff, SourceProofs.line_offsets_length. reflexivity.
+  intros src root l f. rewrite SourceProofs.source_overline_iff, SourceProofs.line_offsets_length. reflexivity.
 Qed.
 Print Assumptions C19_overline_src.
 
@@ -80,7 +78,7 @@ Theorem C19_pos_off_by_one_harmless : forall src l off b c,
 Proof. exact SourceProofs.pos_off_by_one_harmless. Qed.
 Print Assumptions C19_pos_off_by_one_harmless.
 
-(* ---- what is selected ---- *)
+(* ---- the raw selection (the ast.Inspect walk) ---- *)
 
 (* the complete characterisation on well-positioned files *)
 Theorem C19_select_spec : forall off root,
@@ -95,21 +93,7 @@ Theorem C19_selected_is_member : forall off root p d,
 Proof. exact SourceProofs.selected_is_member. Qed.
 Print Assumptions C19_selected_is_member.
 
-(* the line starts after the func keyword of declaration k and not after the
-   start of the next declaration: exactly k *)
-Theorem C19_select_enclosing : forall offsets l off p0 pre pk fd ch nxt post,
-  nth_error offsets l = Some off ->
-  wf_file (Node p0 KOther (pre ++ Node pk (KFuncDecl fd) ch :: nxt :: post)) = true ->
-  (pk < off)%N -> (off <= node_pos nxt)%N ->
-  get_func_ast offsets (Node p0 KOther (pre ++ Node pk (KFuncDecl fd) ch :: nxt :: post)) l = AstFound pk fd.
-Proof.
-  intros offsets l off p0 pre pk fd ch nxt post Hoff Hwf Hlt Hle.
-  unfold get_func_ast. rewrite Hoff. apply SourceProofs.select_enclosing; assumption.
-Qed.
-Print Assumptions C19_select_enclosing.
-
-(* in particular the line that holds the func keyword of the NEXT function
-   still selects the previous one *)
+(* the line that holds the func keyword of the NEXT function still selects the previous one *)
 Theorem C19_func_keyword_line_selects_previous : forall off p0 pre pj fj chj pk fk chk post,
   wf_file (Node p0 KOther (pre ++ Node pj (KFuncDecl fj) chj :: Node pk (KFuncDecl fk) chk :: post)) = true ->
   (pj < off)%N -> (off <= pk)%N ->
@@ -137,14 +121,97 @@ Theorem C19_select_none_before_first : forall off root,
 Proof. exact SourceProofs.select_none_before_first. Qed.
 Print Assumptions C19_select_none_before_first.
 
+(* ---- the selection after the name filter ---- *)
+
+(* the types used for a frame are those of a declaration of the file that
+   declares the function the frame names: same function name (the last
+   dot-component once "[...]" is removed), exactly one receiver field or none,
+   and the receiver is printed as the frame prints it -- recv_text d is
+   Some [] for a plain function, Some "T" for a value receiver T / T[..],
+   Some (OPEN_STAR ++ "T" ++ CLOSE) for a pointer receiver *T / *T[..] *)
+Theorem C19_selected_matches_frame : forall offsets root l f p nm ts ell,
+  source_types offsets root l f = Ok (SrcTypes p nm ts ell) ->
+  exists d, In (p, d) (funcdecls root) /\ match_func_decl d f = true /\
+            nm = fd_name d /\ nm = last_component f /\ recv_wf d = true /\
+            recv_text d = Some (recv_part f) /\ (ts, ell) = extract_arguments_type d.
+Proof. exact SourceProofs.selected_matches_frame. Qed.
+Print Assumptions C19_selected_matches_frame.
+
+(* two declarations matching the same frame name have the same name and the same printed receiver *)
+Theorem C19_match_injective : forall d1 d2 f,
+  match_func_decl d1 f = true -> match_func_decl d2 f = true ->
+  fd_name d1 = fd_name d2 /\ recv_text d1 = recv_text d2.
+Proof. exact SourceProofs.match_injective. Qed.
+Print Assumptions C19_match_injective.
+
+(* the name the runtime prints for a declaration matches it: functions
+   ("f", "F[...]") and methods ("T.m", "T[...].m", and the same with the receiver wrapped in OPEN_STAR .. CLOSE) *)
+Theorem C19_match_complete_func : forall d f,
+  fd_recv d = None -> strip_tparams f = fd_name d -> ~ In DOT (fd_name d) -> match_func_decl d f = true.
+Proof. exact SourceProofs.match_complete_func. Qed.
+Print Assumptions C19_match_complete_func.
+
+Theorem C19_match_complete_method : forall d f r b,
+  fd_recv d = Some [r] -> recv_base (f_type r) = Some b ->
+  strip_tparams f = (if is_star (f_type r) then OPEN_STAR ++ b ++ CLOSE else b) ++ DOT :: fd_name d ->
+  ~ In DOT (fd_name d) -> match_func_decl d f = true.
+Proof. exact SourceProofs.match_complete_method. Qed.
+Print Assumptions C19_match_complete_method.
+
+(* no declaration of the file has the function name of the frame: never
+   augmented.  Function literals "outer.funcN" (no function is called funcN),
+   method-value wrappers "T.m-fm", "init.0", hostile names *)
+Theorem C19_wrong_name_unaugmented : forall offsets root l f,
+  (forall p d, In (p, d) (funcdecls root) -> fd_name d <> last_component f) ->
+  source_types offsets root l f = Ok SrcNone \/ source_types offsets root l f = Ok SrcErr.
+Proof. exact SourceProofs.wrong_name_unaugmented. Qed.
+Print Assumptions C19_wrong_name_unaugmented.
+
+(* the line starts after the func keyword of declaration k and not after the
+   start of the next declaration, and the frame names k: exactly k's types *)
+Theorem C19_select_enclosing : forall offsets l f off p0 pre pk fd ch nxt post,
+  nth_error offsets l = Some off ->
+  wf_file (Node p0 KOther (pre ++ Node pk (KFuncDecl fd) ch :: nxt :: post)) = true ->
+  (pk < off)%N -> (off <= node_pos nxt)%N ->
+  match_func_decl fd f = true ->
+  source_types offsets (Node p0 KOther (pre ++ Node pk (KFuncDecl fd) ch :: nxt :: post)) l f =
+  Ok (SrcTypes pk (fd_name fd) (fst (extract_arguments_type fd)) (snd (extract_arguments_type fd))).
+Proof. exact SourceProofs.select_enclosing_types. Qed.
+Print Assumptions C19_select_enclosing.
+
+(* a line at or before the func keyword of k and after that of j (j directly
+   before k) -- the line of a one-line function k, the func keyword line of k:
+   a frame that does not name j gets nothing, never j's types *)
+Theorem C19_func_keyword_line_unaugmented : forall offsets l f off p0 pre pj fj chj pk fk chk post,
+  nth_error offsets l = Some off ->
+  wf_file (Node p0 KOther (pre ++ Node pj (KFuncDecl fj) chj :: Node pk (KFuncDecl fk) chk :: post)) = true ->
+  (pj < off)%N -> (off <= pk)%N ->
+  match_func_decl fj f = false ->
+  source_types offsets (Node p0 KOther (pre ++ Node pj (KFuncDecl fj) chj :: Node pk (KFuncDecl fk) chk :: post)) l f =
+  Ok SrcNone.
+Proof. exact SourceProofs.func_keyword_line_unaugmented. Qed.
+Print Assumptions C19_func_keyword_line_unaugmented.
+
+(* in particular a frame named after k, when k differs from j by name or by printed receiver *)
+Theorem C19_one_line_func_unaugmented : forall offsets l f off p0 pre pj fj chj pk fk chk post,
+  nth_error offsets l = Some off ->
+  wf_file (Node p0 KOther (pre ++ Node pj (KFuncDecl fj) chj :: Node pk (KFuncDecl fk) chk :: post)) = true ->
+  (pj < off)%N -> (off <= pk)%N ->
+  match_func_decl fk f = true ->
+  (fd_name fj <> fd_name fk \/ recv_text fj <> recv_text fk) ->
+  source_types offsets (Node p0 KOther (pre ++ Node pj (KFuncDecl fj) chj :: Node pk (KFuncDecl fk) chk :: post)) l f =
+  Ok SrcNone.
+Proof. exact SourceProofs.one_line_func_unaugmented. Qed.
+Print Assumptions C19_one_line_func_unaugmented.
+
 (* ---- the type list ---- *)
 
 (* one entry per declared name (one for an unnamed field), preceded by the
    receiver when it is a pointer; the flag is that of the last field; each
-   entry is what fieldToType yields for one of the fields; a variadic
-   signature has at least one entry (the hypothesis of C19_total) *)
+   entry is what fieldToType yields for one of the fields *)
 Theorem C19_types_shape : forall d types ell,
-  extract_arguments_type d = Ok (types, ell) ->
+  recv_wf d = true ->
+  extract_arguments_type d = (types, ell) ->
   types = flat_map field_types (arg_fields d) /\
   List.length types = list_sum (map mult (arg_fields d)) /\
   ell = match last_opt (arg_fields d) with Some f => is_ellipsis (f_type f) | None => false end /\
@@ -154,24 +221,28 @@ Theorem C19_types_shape : forall d types ell,
 Proof. exact SourceProofs.types_shape. Qed.
 Print Assumptions C19_types_shape.
 
+(* a variadic signature has at least one entry, for EVERY declaration: the hypothesis of C19_total *)
+Theorem C19_variadic_nonempty : forall d types ell,
+  extract_arguments_type d = (types, ell) -> ell = true -> types <> [].
+Proof. exact SourceProofs.extract_variadic_nonempty. Qed.
+Print Assumptions C19_variadic_nonempty.
+
 (* extractArgumentsType followed by augmentCall never panics, whatever the
    declaration and the argument words *)
-Theorem C19_extract_then_augment_total : forall f32 f64 d types ell a,
-  extract_arguments_type d = Ok (types, ell) ->
-  exists r, augment_call f32 f64 types ell a = Ok r.
+Theorem C19_extract_then_augment_total : forall f32 f64 d a,
+  exists r, augment_call f32 f64 (fst (extract_arguments_type d)) (snd (extract_arguments_type d)) a = Ok r.
 Proof. exact SourceProofs.extract_then_augment_total. Qed.
 Print Assumptions C19_extract_then_augment_total.
 
 (* C19_truthful with the type list COMPUTED from the declaration: a function
    (or value-receiver method) whose fields are written with the types of the
-   supported kinds renders every parameter value truthfully *)
+   supported kinds renders every value truthfully *)
 Theorem C19_types_compose : forall f32 f64 isptr d ps,
   (fd_recv d = None \/ exists r, fd_recv d = Some [r] /\ is_star (f_type r) = false) ->
   params_match (fd_params d) ps ->
   forallb wf_param ps = true ->
-  exists types ell,
-    extract_arguments_type d = Ok (types, ell) /\
-    augment_call f32 f64 types ell (args_of_words isptr (flat_map encode ps)) = Ok (map (show f32 f64) ps).
+  augment_call f32 f64 (fst (extract_arguments_type d)) (snd (extract_arguments_type d))
+               (args_of_words isptr (flat_map encode ps)) = Ok (map (show f32 f64) ps).
 Proof. exact SourceProofs.types_compose. Qed.
 Print Assumptions C19_types_compose.
 
@@ -179,10 +250,9 @@ Theorem C19_types_compose_ptr_receiver : forall f32 f64 isptr d n x recv ps,
   fd_recv d = Some [mkField n (TStar x)] -> n <= 1 ->
   params_match (fd_params d) ps ->
   word_ok recv = true -> forallb wf_param ps = true ->
-  exists types ell,
-    extract_arguments_type d = Ok (types, ell) /\
-    augment_call f32 f64 types ell (args_of_words isptr (recv :: flat_map encode ps)) =
-    Ok (((s2b "*" ++ Source.type_name x) ++ s2b "(" ++ hex0x recv ++ s2b ")") :: map (show f32 f64) ps).
+  augment_call f32 f64 (fst (extract_arguments_type d)) (snd (extract_arguments_type d))
+               (args_of_words isptr (recv :: flat_map encode ps)) =
+  Ok (((s2b "*" ++ Source.type_name x) ++ s2b "(" ++ hex0x recv ++ s2b ")") :: map (show f32 f64) ps).
 Proof. exact SourceProofs.types_compose_ptr_receiver. Qed.
 Print Assumptions C19_types_compose_ptr_receiver.
 
@@ -243,63 +313,107 @@ Example C19_ex_wf : wf_file ex_tree = true.
 Proof. vm_compute. reflexivity. Qed.
 Local Close Scope N_scope.
 
-(* lines 0..18 of the file, exactly what stack.VerifFuncTypes returns *)
+(* lines 0..18 of the file queried with the name of the frame that can carry
+   the line: exactly what stack.VerifFuncTypes returns *)
 Definition ex_res_a := SrcTypes 12 (s2b "a") [s2b "string"] false.
 Definition ex_res_b := SrcTypes 42 (s2b "b") (map s2b ["*T"; "int"; "int"; "string"]%string) true.
 Definition ex_res_c := SrcTypes 129 (s2b "c") (map s2b ["map[string]int"; "[4]T"]%string) false.
+(* pn "T" "b" is the name a traceback prints for method b with a pointer receiver T; op s prefixes s with OPEN_STAR *)
+Definition op (s : string) : bytes := OPEN_STAR ++ s2b s.
+Definition pn (t m : string) : bytes := op t ++ CLOSE ++ DOT :: s2b m.
+Definition ex_qb (l : nat) (f : bytes) := source_types (line_offsets ex_src) ex_tree l f.
+Definition ex_q (l : nat) (f : string) := ex_qb l (s2b f).
 Example C19_ex_all_lines :
-  map (source_types (line_offsets ex_src) ex_tree) (seq 0 19) =
+  [ex_q 0 "a"; ex_q 1 "a"; ex_q 2 "a"; ex_q 3 "a";
+   ex_q 4 "a"; ex_q 5 "a"; ex_q 6 "a";
+   ex_qb 7 (pn "T" "b"); ex_qb 8 (pn "T" "b");
+   ex_q 9 "init.func1"; ex_q 10 "init.func1"; ex_q 11 "init.func1";
+   ex_qb 12 (pn "T" "b"); ex_q 13 "c"; ex_q 14 "c"; ex_q 15 "c"; ex_q 16 "c"; ex_q 17 "c"; ex_q 18 "c"] =
   map Ok [SrcNone; SrcNone; SrcNone; SrcNone;             (* 0-2, and 3: the line of "func a" *)
           ex_res_a; ex_res_a; ex_res_a;                    (* 4-6: body of a, closing brace, blank line *)
-          ex_res_a;                                        (* 7: the one-line method b is written here *)
+          SrcNone;                                         (* 7: the one-line method b: unaugmented *)
           ex_res_b;                                        (* 8: blank *)
-          ex_res_b; ex_res_b; ex_res_b;                    (* 9-11: var g = func(q int) {...} *)
+          SrcNone; SrcNone; SrcNone;                       (* 9-11: var g = func(q int) {...}: unaugmented *)
           ex_res_b;                                        (* 12: blank *)
-          ex_res_b;                                        (* 13: the line of "func c" *)
+          SrcNone;                                         (* 13: the line of "func c" *)
           ex_res_c;                                        (* 14: body of c *)
           SrcNone;                                         (* 15: closing brace of the last declaration *)
           SrcNone;                                         (* 16: the empty line after the final LF *)
           SrcErr; SrcErr].                                 (* 17, 18: over the line count of 16 *)
 Proof. vm_compute. reflexivity. Qed.
 
-(* "the function written on line l is the one selected" is FALSE for a
-   function written on one line: line 7 holds all of b and selects a, whose
-   types would be used to render b's arguments *)
-Example C19_ex_one_line_func_refuted :
+(* FINDING F-A (function written on one line), repaired by 12f3b86.  The walk
+   still selects a for line 7, which holds all of b (formerly
+   C19_ex_one_line_func_refuted: a's types were used to render b's arguments);
+   the frame pn "T" "b" is now left unaugmented; only a frame named "a" would get a's types *)
+Example C19_ex_one_line_func :
   nth_error (line_offsets ex_src) 7 = Some 41%N /\
-  node_pos (Node 42 (KFuncDecl ex_b) []) = 42%N /\       (* b's func keyword is the first byte of line 7 *)
-  get_func_ast (line_offsets ex_src) ex_tree 7 = AstFound 12 ex_a.
+  get_func_ast_at 41 ex_tree = AstFound 12 ex_a /\
+  ex_qb 7 (pn "T" "b") = Ok SrcNone /\ ex_q 7 "T.b" = Ok SrcNone /\ ex_q 7 "a" = Ok ex_res_a.
 Proof. vm_compute. repeat split; reflexivity. Qed.
 
-(* a function literal of a top-level var declaration: line 10 is inside
-   "var g = func(q int) {" and selects the method declared before it *)
-Example C19_ex_toplevel_funclit_refuted :
-  get_func_ast (line_offsets ex_src) ex_tree 10 = AstFound 42 ex_b.
+(* FINDINGS F-B / F-C (function literals), repaired by 12f3b86: line 10 is
+   inside "var g = func(q int) {"; the walk selects b (formerly
+   C19_ex_toplevel_funclit_refuted), the frames of the literal are unaugmented *)
+Example C19_ex_toplevel_funclit :
+  get_func_ast_at 117 ex_tree = AstFound 42 ex_b /\
+  ex_q 10 "init.func1" = Ok SrcNone /\ ex_q 10 "glob..func1" = Ok SrcNone /\ ex_qb 10 (pn "T" "b.func1") = Ok SrcNone.
+Proof. vm_compute. repeat split; reflexivity. Qed.
+
+(* matchFuncDecl on names a traceback prints, and on hostile ones *)
+Definition ex_gen := mkFuncDecl (s2b "pm") (Some [mkField 1 (TStar (TIndex (TIdent (s2b "L"))))]) [mkField 1 (TIdent (s2b "int"))].
+Definition ex_val := mkFuncDecl (s2b "vm") (Some [mkField 1 (TIndex (TIdent (s2b "S")))]) [].
+Example C19_ex_match :
+  map (fun df => match_func_decl (fst df) (snd df))
+    [(ex_a, s2b "a"); (ex_a, s2b "a[...]"); (ex_b, pn "T" "b"); (ex_gen, pn "L[...]" "pm"); (ex_val, s2b "S[...].vm");
+     (ex_a, s2b "a.func1"); (ex_a, s2b "x.a"); (ex_a, s2b ""); (ex_a, s2b "."); (ex_b, s2b "T.b"); (ex_b, s2b "b");
+     (ex_b, op "T.b"); (ex_b, s2b "T).b");
+     (ex_b, pn "" "b"); (ex_b, pn "U" "b"); (ex_b, pn "T" "b-fm"); (ex_gen, pn "L" "pm"); (ex_gen, s2b "L[...].pm");
+     (ex_val, pn "S[...]" "vm");
+     (ex_a, s2b "[..[...].]a"); (ex_a, s2b ".a")] =
+  [true; true; true; true; true;
+   false; false; false; false; false; false; false; false;
+   false; false; false; true; false; false;
+   false; true].
+Proof. vm_compute. reflexivity. Qed.
+Example C19_ex_strip : strip_tparams (pn "L[...]" "pm[...]x[..[...].]") = pn "L" "pmx[...]".
 Proof. vm_compute. reflexivity. Qed.
 
 (* the hypotheses of C19_select_enclosing are satisfiable: line 5 in a *)
 Example C19_ex_select_enclosing :
   exists pre nxt post ch, ex_tree = Node 1 KOther (pre ++ Node 12 (KFuncDecl ex_a) ch :: nxt :: post) /\
-    nth_error (line_offsets ex_src) 5 = Some 38%N /\ (12 < 38)%N /\ (38 <= node_pos nxt)%N.
+    nth_error (line_offsets ex_src) 5 = Some 38%N /\ (12 < 38)%N /\ (38 <= node_pos nxt)%N /\
+    match_func_decl ex_a (s2b "a") = true.
 Proof.
-  eexists [_], _, _, _. split; [reflexivity|]. vm_compute. repeat split; discriminate.
+  eexists [_], _, _, _. split; [reflexivity|]. vm_compute. repeat split; try discriminate; reflexivity.
 Qed.
 
-(* a receiver list without field parses (go/parser accepts "func () m() {}")
-   and makes extractArgumentsType panic; so does a list of two *)
-Example C19_ex_empty_receiver_panics :
-  extract_arguments_type (mkFuncDecl (s2b "m") (Some []) []) =
-  Panic "Expect only one receiver; please fix panicparse's code".
-Proof. reflexivity. Qed.
-Example C19_ex_two_receivers_panic :
-  exists m, extract_arguments_type
-    (mkFuncDecl (s2b "m") (Some [mkField 1 (TIdent (s2b "T")); mkField 1 (TIdent (s2b "U"))]) []) = Panic m.
-Proof. eexists. reflexivity. Qed.
-(* "func (a, b *T) m(x int)": ONE receiver field with two names: no panic, the receiver type is listed twice *)
+(* FINDING F-D (crash), repaired by 4cb43b4: a receiver list without field
+   parses (go/parser accepts "func () m() {}"), and so does a list of two; it
+   used to make extractArgumentsType panic (formerly
+   C19_ex_empty_receiver_panics, C19_ex_two_receivers_panic); now: no types,
+   and matchFuncDecl never selects such a declaration in the first place *)
+Definition ex_norecv := mkFuncDecl (s2b "m") (Some []) [mkField 1 (TIdent (s2b "int"))].
+Definition ex_tworecv := mkFuncDecl (s2b "m") (Some [mkField 1 (TIdent (s2b "T")); mkField 1 (TIdent (s2b "U"))]) [].
+Example C19_ex_bad_receivers :
+  extract_arguments_type ex_norecv = ([], false) /\ extract_arguments_type ex_tworecv = ([], false) /\
+  match_func_decl ex_norecv (s2b "m") = false /\ match_func_decl ex_norecv (s2b ".m") = false /\
+  match_func_decl ex_tworecv (s2b "T.m") = false.
+Proof. vm_compute. repeat split; reflexivity. Qed.
+(* "package p\nfunc () m() {\n}\nvar x = 1\n", lines 3 and 4: formerly a panic *)
+Example C19_ex_bad_receiver_file :
+  let root := Node 1 KOther [Node 9 KOther []; Node 11 (KFuncDecl (mkFuncDecl (s2b "m") (Some []) []))
+                               [Node 16 KOther []; Node 19 KOther []; Node 11 KOther [Node 20 KOther []]; Node 23 KOther []];
+                             Node 27 KOther [Node 31 KOther [Node 31 KOther []; Node 35 KOther []]]] in
+  let offs := [0; 0; 10; 24; 26; 36]%N in
+  map (fun l => source_types offs root l (s2b "m")) [2; 3; 4; 5; 6] =
+  map Ok [SrcNone; SrcNone; SrcNone; SrcNone; SrcErr].
+Proof. vm_compute. reflexivity. Qed.
+(* "func (a, b *T) m(x int)": ONE receiver field with two names: the receiver type is listed twice *)
 Example C19_ex_two_receiver_names :
   extract_arguments_type
     (mkFuncDecl (s2b "m") (Some [mkField 2 (TStar (TIdent (s2b "T")))]) [mkField 1 (TIdent (s2b "int"))]) =
-  Ok (map s2b ["*T"; "*T"; "int"]%string, false).
+  (map s2b ["*T"; "*T"; "int"]%string, false).
 Proof. vm_compute. reflexivity. Qed.
 
 (* the names fieldToType produces *)
@@ -312,10 +426,11 @@ Example C19_ex_field_names :
      TMap (TSelector (s2b "K")) (TArray None (TIdent (s2b "int")));     (* map[pkg.K][]int *)
      TChan (TStar (TIdent (s2b "T")));                                  (* <-chan *T *)
      TStar (TStar (TIdent (s2b "T")));                                  (* **T *)
-     TStar TOther;                                                      (* *List[int] *)
+     TStar (TIndex (TIdent (s2b "List")));                              (* *List[int] *)
+     TIndex (TIdent (s2b "List"));                                      (* List[T] *)
      TInterface; TFunc; TOther;                                         (* interface{ M() }, func(int) string, struct{} *)
      TEllipsis (Some TInterface)] =                                     (* ...interface{} *)
-  map s2b ["[]<unknown>"; "[N]*T"; "[<unknown>]int"; "[...]int"; "map[K]<unknown>"; "chan *T"; "**T"; "*<unknown>";
+  map s2b ["[]<unknown>"; "[N]*T"; "[<unknown>]int"; "[...]int"; "map[K]<unknown>"; "chan *T"; "**T"; "*<unknown>"; "<unknown>";
            "interface{}"; "func"; "<unknown>"; "interface{}"]%string.
 Proof. vm_compute. reflexivity. Qed.
 
@@ -324,10 +439,9 @@ Proof. vm_compute. reflexivity. Qed.
    flag set, receiver and integers rendered *)
 Definition exb_f (_ : N) : bytes := s2b "<float>".
 Example C19_ex_compose_b :
-  (match extract_arguments_type ex_b with
-   | Ok (types, ell) => augment_call exb_f exb_f types ell (args_of_words (fun _ => false) [824633802752; 18446744073709551615; 7]%N)
-   | Panic m => Panic m
-   end) = Ok (map s2b ["*T(0xc000014000)"; "-1"; "7"]%string).
+  (let '(types, ell) := extract_arguments_type ex_b in
+   augment_call exb_f exb_f types ell (args_of_words (fun _ => false) [824633802752; 18446744073709551615; 7]%N))
+  = Ok (map s2b ["*T(0xc000014000)"; "-1"; "7"]%string).
 Proof. vm_compute. reflexivity. Qed.
 
 (* the hypotheses of C19_types_compose are satisfiable: func c(m map[string]int, n, k int8, s string) *)
